@@ -172,11 +172,12 @@ CloseW == /\ upc = "close" /\ owed /\ dev = "ok"
           /\ UNCHANGED <<cfgv, upc, cbc, handle, fresh, thr, sp, tpc, cur, hs, outq, dev, jam, fault,
                          req, sess, nreq, nops, nidle, lostrow, lasto, nerr>>
 
-\* close() raises on an object that was never connected, and (udp) when its own frame cannot be sent
-CloseRaises == fresh \/ (owed /\ dev # "ok")
+\* close() raises on an object that was never connected (usb, radio, tcp: no comm thread to stop; udp
+\* returns), and (udp) when its own frame cannot be sent -- the socket is dropped all the same
+CloseRaises == (fresh /\ kind # "udp") \/ (owed /\ dev # "ok")
 CloseE == /\ upc = "close" /\ (owed => dev # "ok") /\ (fresh \/ Joined)
           /\ Log("close", IF CloseRaises THEN 0 ELSE 1)
-          /\ IF CloseRaises THEN UNCHANGED <<handle, thr, outq>>
+          /\ IF fresh THEN UNCHANGED <<handle, thr, outq>>
              ELSE CloseCore(handle /\ (fault # "none" \/ (dev = "gone" /\ kind \in {"usb", "tcp"})), Bug # "noJoin")
           /\ fault' = "none" /\ owed' = FALSE
           /\ upc' = "idle" /\ nops' = nops + 1
